@@ -8,7 +8,7 @@ from hypothesis import strategies as st
 from hgv import gen
 from hgv.runner import Result, Viol
 from hgv.trace import Trace
-from hgv.worker import HarnessError
+from hgv.worker import HarnessError, Rejected
 
 ID = "C15"
 RULE = ("Three shapes. (node) a throwing compute node under exception_time_series (activate_error_capture + its error output), with "
@@ -130,7 +130,7 @@ def check(case, ctx) -> Result:
             res.violations.append(Viol("engine_crash", f"{what}: worker died {x.get('signal')} {x.get('stderr', '')[-500:]}"))
             return res
         if not x.get("built"):
-            raise HarnessError(f"C15 generator produced a program the tree rejects ({what}): {x.get('error')}")
+            raise Rejected(f"C15 generator produced a program the tree rejects ({what}): {x.get('error')}")
     if r0.get("error"):
         raise HarnessError(f"C15 fault-free program failed: {r0['error']}")
     feats = {"shape": case["shape"], "self_sched": case["self_sched"], "second": case["second"]}
